@@ -51,6 +51,25 @@ pub fn flat(attr: TokenStream, item: TokenStream) -> TokenStream {
             .into();
     }
 
+    // The macro cannot evaluate `cfg`: a conditionally compiled field or variant would still be counted
+    // in every type list, offset and tag value computed below.
+    {
+        let is_cfg = |attrs: &[syn::Attribute]| attrs.iter().find(|a| a.path.is_ident("cfg") || a.path.is_ident("cfg_attr")).cloned();
+        let conditional = match &input.data {
+            Data::Struct(data) => data.fields.iter().find_map(|f| is_cfg(&f.attrs)),
+            Data::Enum(data) => data
+                .variants
+                .iter()
+                .find_map(|v| is_cfg(&v.attrs).or_else(|| v.fields.iter().find_map(|f| is_cfg(&f.attrs)))),
+            Data::Union(_) => None,
+        };
+        if let Some(attr) = conditional {
+            return syn::Error::new_spanned(attr, "`#[cfg]` on a field or variant is not supported by `#[flat]`, put it on the whole item")
+                .to_compile_error()
+                .into();
+        }
+    }
+
     match &input.data {
         Data::Struct(_) => {
             assert!(ctx.info.tag_type.is_none(), "`tag_type` is not allowed for `struct`",);
